@@ -6,7 +6,7 @@
     Instances: the printed tokens of a stream selector (label names may be keywords that are not function names: D29) and of a
     pipeline over the stage fragment of PipelineP are such lists; composing with the parser theorems gives
     text -> matchers (selector) and text -> ELog selector stages (whole log queries through parse_tokens). *)
-From LogQLV Require Import Base.Bytes Base.TimeFmt Base.FloatX Model.Tables Model.Syntax Model.Parser Model.Lexer Proofs.ParserP Proofs.PipelineP Proofs.LogRangeP Proofs.QueryP Proofs.LexerP.
+From LogQLV Require Import Base.Bytes Base.TimeFmt Base.FloatX Model.Tables Model.Syntax Model.Parser Model.Lexer Proofs.ParserP Proofs.PipelineP Proofs.LogRangeP Proofs.QueryP Proofs.LexerP Proofs.LexerTightP.
 From Coq Require Import Lia.
 
 (** facts about the keyword table of the tree under verification (decided by computation on Model/Tables.v, which is
@@ -100,23 +100,24 @@ Section LexParse.
         * destruct (is_valid_label (text t)); [destruct (is_function (ty t))|]; cbn [lres]; unfold tok_of; cbn [fst snd]; rewrite ES, ED; exact H.
   Qed.
 
-  Lemma wf_items l toks : map fst l = toks -> Forall wf_ltok toks -> Forall (fun x => all_space (snd x)) l -> Forall wf_item l.
+  Lemma wf_fst l toks : map fst l = toks -> Forall wf_ltok toks -> Forall (fun x : ltok * bytes => wf_ltok (fst x)) l.
   Proof.
-    revert toks. induction l as [|[t ws] r IH]; intros toks E Hw Hs; [constructor|].
-    cbn in E. subst toks. inversion Hw; subst. inversion Hs; subst. constructor; [split; assumption|]. eapply IH; [reflexivity|assumption|assumption].
+    revert toks. induction l as [|[t ws] r IH]; intros toks E Hw; [constructor|].
+    cbn in E. subst toks. inversion Hw; subst. constructor; [assumption|]. eapply IH; [reflexivity|assumption].
   Qed.
 
-  (** the generic statement: lexable tokens, written with any white space after each, lex back to themselves *)
+  (** the generic statement: lexable tokens, written one after the other with white space wherever the boundary between two
+      tokens needs it ([seps_ok]; any non-empty white space will do everywhere), lex back to themselves *)
   Theorem lex_tokens_lemma (ts : list token) (l : list (ltok * bytes)) :
-    map fst l = map ltok_of ts -> Forall (fun x => all_space (snd x)) l -> Forall lexable ts -> funs_ok (map ltok_of ts) ->
+    map fst l = map ltok_of ts -> seps_ok l -> Forall lexable ts -> funs_ok (map ltok_of ts) ->
     exists toks, lex (layout l) = LexOk toks /\ map tok_of toks = ts.
   Proof.
     intros El Hs Hl Hf.
     assert (Hw : Forall wf_ltok (map ltok_of ts)).
     { apply Forall_map. eapply Forall_impl; [|exact Hl]. intros t [H _]. exact H. }
-    pose proof (wf_items l _ El Hw Hs) as Hwf.
+    pose proof (wf_fst l _ El Hw) as Hwf.
     exists (map (fun x => lres (fst x)) l). split.
-    - apply lex_layout_lemma; [exact Hwf|]. apply fun_ok_funs. rewrite El. exact Hf.
+    - apply lex_layout_tight_lemma; [exact Hwf|exact Hs|]. apply fun_ok_funs. rewrite El. exact Hf.
     - rewrite map_map. rewrite <- (map_map fst (fun t => tok_of (lres t))). rewrite El. rewrite map_map.
       clear El Hw Hwf Hf Hs. induction ts as [|t r IH]; [reflexivity|]. inversion Hl; subst. cbn [map]. rewrite tok_of_ltok by assumption. f_equal. apply IH. assumption.
   Qed.
@@ -222,7 +223,7 @@ Section LexParse.
 
   (** from the text of a selector to its matchers *)
   Theorem selector_text_lemma (ms : list matcher) (l : list (ltok * bytes)) (p r : list token) (fuel : nat) :
-    map fst l = map ltok_of (print_selector anch re_names kw_cls ms) -> Forall (fun x => all_space (snd x)) l ->
+    map fst l = map ltok_of (print_selector anch re_names kw_cls ms) -> seps_ok l ->
     Forall text_matcher ms -> (length ms < fuel)%nat ->
     exists toks, lex (layout l) = LexOk toks /\
       parse_selector fuel {| prev := p; rest := map tok_of toks ++ r |} =
@@ -336,7 +337,7 @@ Section LexParse.
   (** from the text of a whole log query to its tree, through parse_tokens (logql.Parse after tokenizing) *)
   Theorem log_query_text_lemma (sel : list matcher) (sts : list stage) (l : list (ltok * bytes)) :
     map fst l = map ltok_of (print_selector anch re_names kw_cls sel ++ print_stages anch re_names sts) ->
-    Forall (fun x => all_space (snd x)) l ->
+    seps_ok l ->
     Forall text_matcher sel -> Forall text_stage sts -> chain_ok anch re_names sts [] ->
     exists toks, lex (layout l) = LexOk toks /\ parse_tokens (map tok_of toks) = Parsed (ELog sel sts).
   Proof.
@@ -400,7 +401,7 @@ Section LexParse.
 
   Theorem range_agg_text_lemma (o : rangeop) (sel : list matcher) (sts : list stage) (rtxt : bytes) (rns : Z) (off : option (bytes * Z)) (l : list (ltok * bytes)) :
     map fst l = map ltok_of (print_range_agg anch re_names kw_cls o sel sts rtxt rns off) ->
-    Forall (fun x => all_space (snd x)) l ->
+    seps_ok l ->
     range_validate o None None false = true ->
     Forall text_matcher sel -> Forall text_stage sts -> chain_ok anch re_names sts (print_range rtxt rns off ++ [punct TCloseParen]) ->
     text_dur rtxt rns -> text_offset off ->
@@ -429,7 +430,7 @@ Section LexParse.
   Theorem vec_agg_text_lemma (v : vectorop) (g : grouping) (o : rangeop) (sel : list matcher) (sts : list stage) (rtxt : bytes) (rns : Z)
       (off : option (bytes * Z)) (l : list (ltok * bytes)) :
     map fst l = map ltok_of (print_vec_agg anch re_names kw_cls v g o sel sts rtxt rns off) ->
-    Forall (fun x => all_space (snd x)) l ->
+    seps_ok l ->
     vector_validate v None (Some g) = true -> range_validate o None None false = true -> text_names (g_labels g) ->
     Forall text_matcher sel -> Forall text_stage sts -> chain_ok anch re_names sts (print_range rtxt rns off ++ [punct TCloseParen; punct TCloseParen]) ->
     text_dur rtxt rns -> text_offset off ->
